@@ -711,6 +711,71 @@ Proof.
   exact (mrun_inv ops (mkM (rh_init counters names) [] orc) SitesInv_nil _ _ H).
 Qed.
 
+(* ---------------------------------------------------------------- the lifetime of a scope (round 4)
+   The entry of a call site lives as long as its parent row is the same row: saves, plain
+   references, unique references at other call sites and - above all - iteration ends (MReset)
+   neither remove it nor shorten what it remembers; it is replaced only when this very call
+   site is evaluated under a different parent row.                                            *)
+Definition keeps_parent (s p : Z) (op : mop) : Prop :=
+  match op with MURef s' p' _ _ => s' = s -> p' = p | _ => True end.
+
+Lemma site_get_same ss s p st : lookupN s ss = Some st -> s_parent st = p -> site_get ss s p = st.
+Proof.
+  intros Hl Hp. unfold site_get. rewrite Hl.
+  destruct (s_parent st =? p) eqn:E; [reflexivity|lia].
+Qed.
+
+Lemma scope_step m op o m1 s p st :
+  SitesInv (m_sites m) -> mstep m op = (o, Some m1) -> keeps_parent s p op ->
+  lookupN s (m_sites m) = Some st -> s_parent st = p ->
+  exists st' l, lookupN s (m_sites m1) = Some st' /\ s_parent st' = p /\
+                s_old st' ++ s_cur st' = (s_old st ++ s_cur st) ++ l.
+Proof.
+  intros HI H Hk Hl Hp.
+  destruct op as [t n i| |name glob|s' p' name glob]; cbn [mstep] in H.
+  - injection H as _ <-. exists st, []. rewrite app_nil_r. auto.
+  - injection H as _ <-. exists st, []. rewrite app_nil_r. auto.
+  - destruct (mstep_ref (m_h m) name glob (m_orc m)) as [res orc']. injection H as _ <-.
+    exists st, []. rewrite app_nil_r. auto.
+  - destruct (mstep_uref (m_h m) (m_sites m) (m_orc m) s' p' name glob) as [[[[t i] ss'] orc']|e] eqn:E;
+      [|discriminate].
+    injection H as _ <-. cbn [m_sites].
+    destruct (mstep_uref_range _ _ _ _ _ _ _ _ E) as (nick & table & lo & hi & Hr).
+    destruct (site_step _ _ _ _ _ _ _ _ _ _ _ _ _ _ _ HI Hr E)
+      as (d & st' & _ & _ & _ & Hl' & Hp' & Hlist & Hoth & _).
+    destruct (Z.eq_dec s' s) as [->|Hne].
+    + cbn [keeps_parent] in Hk. specialize (Hk eq_refl). subst p'.
+      rewrite (site_get_same _ _ _ _ Hl Hp) in Hlist.
+      exists st', [d]. auto.
+    + exists st, []. rewrite app_nil_r. rewrite (Hoth s) by (intro; apply Hne; congruence). auto.
+Qed.
+
+Theorem scope_outlives_iterations ops : forall m s p st,
+  SitesInv (m_sites m) -> Forall (keeps_parent s p) ops ->
+  lookupN s (m_sites m) = Some st -> s_parent st = p ->
+  exists st' l, lookupN s (m_sites (snd (mrun m ops))) = Some st' /\ s_parent st' = p /\
+                s_old st' ++ s_cur st' = (s_old st ++ s_cur st) ++ l /\
+                NoDup (s_old st' ++ s_cur st').
+Proof.
+  induction ops as [|op ops IH]; intros m s p st HI Hall Hl Hp; subst p; cbn [mrun].
+  - exists st, []. rewrite app_nil_r. cbn [snd]. repeat split; auto. apply SiteInv_nodup. exact (HI _ _ Hl).
+  - inversion Hall as [|? ? Hk Hrest]; subst.
+    pose proof (eq_refl (s_parent st)) as Hp.
+    destruct (mstep m op) as [o [m1|]] eqn:E.
+    + destruct (scope_step _ _ _ _ _ _ _ HI E Hk Hl Hp) as (st1 & l1 & Hl1 & Hp1 & Hlist1).
+      destruct (IH m1 s (s_parent st) st1 (mstep_inv _ _ _ _ HI E) Hrest Hl1 Hp1)
+        as (st2 & l2 & Hl2 & Hp2 & Hlist2 & Hnd).
+      destruct (mrun m1 ops) as [os m2]. cbn [snd] in *.
+      exists st2, (l1 ++ l2). repeat split; auto.
+      rewrite Hlist2, Hlist1. rewrite app_assoc. reflexivity.
+    + cbn [snd]. exists st, []. rewrite app_nil_r. repeat split; auto. apply SiteInv_nodup. exact (HI _ _ Hl).
+Qed.
+
+(* an iteration end touches the row history only: the table of call sites is handed on as is *)
+Lemma reset_keeps_sites m :
+  mstep m MReset = (ONone, Some (mkM (reset_locals (m_h m)) (m_sites m) (m_orc m))).
+Proof. reflexivity. Qed.
+
 (* the outcome at a call site is a function of the row history, of THAT site's entry and of
    the random stream: the entries of other call sites are neither read nor (site_step) written *)
 Theorem site_outcome_local h ss1 ss2 orc s p name glob :
